@@ -60,7 +60,8 @@ def rule_regex(ctx):
 
 
 # the parser's class lookup must not depend on what was parsed before (a corrupt element may not poison later valid ones)
-IMPORTS = [('C03', 'C03.READ'), ('C13', 'C13.UNKNOWN')]
+# C02.TRUTHY: a valid message behind (or between) garbage is not itself taken for garbage
+IMPORTS = [('C03', 'C03.READ'), ('C13', 'C13.UNKNOWN'), ('C02', 'C02.TRUTHY')]
 
 RULES = [
     ("C11.REGEX", rule_regex, "no regex on the parse path has an unbounded repeat with an ambiguous iteration (exponential backtracking)"),
